@@ -19,7 +19,7 @@ func C13(tier common.Tier) int {
 		depth = 2
 	}
 	run.SetRule("state = (family IMM|CTOR, package d|u, annotation mix, declaration history, spelling); each state is analysed by the real analyzers twice — subject type named directly and under the spelling — and the per-site verdicts (site identity -> codes) must be identical. Non-trivial = the direct spelling yields at least one diagnostic.",
-		fmt.Sprintf("all histories of depth<=%d over the C01/C02 encloser alphabet x 2 files, 3 annotation mixes, spellings {local alias, alias in a third package, renamed import, parenthesised type, alias of pointer type, dot import (IMM/CTOR: with the using package's own T removed)}", depth))
+		fmt.Sprintf("all histories of depth<=%d over the C01/C02 encloser alphabet x 2 files, 3 annotation mixes, spellings {local alias, alias in a third package, renamed import, parenthesised type, alias of pointer type, dot import (IMM/CTOR: with the using package's own T removed), alias declared inside the function body (use universe)}", depth))
 	run.Assume("go/types identical-type semantics; the direct spelling's verdicts are judged separately by C01/C02")
 	run.NotJudged("generic aliases")
 	fams := []*e1.Family{&e1.FamIMM, &e1.FamCTOR}
@@ -82,7 +82,7 @@ func C13(tier common.Tier) int {
 				for _, mix := range []e1.UseMix{{TestOnly: true, Allow: 4}, {TestOnly: true, Allow: 1, AnnOrder: 1}} {
 					for _, encl := range []e1.UseEncl{e1.UEPlain, e1.UEPkgVar, e1.UEMethQ} {
 						for _, file := range []int{0, 1} {
-							// all sequences of length <= 2 over the whole alphabet; thorough adds length 3 over the core statements
+							// all sequences of length <= 2 over the whole alphabet (quick: pairs with a core statement); thorough adds length 3 over the core statements
 							var coreIdx []int
 							for _, i := range all {
 								if useSites[i].Core {
@@ -90,7 +90,12 @@ func C13(tier common.Tier) int {
 								}
 							}
 							visit := func(emit func(st []int)) {
-								seqs(all, 2, emit)
+								seqs(all, 2, func(st []int) {
+									if depth == 1 && len(st) == 2 && !useSites[st[0]].Core && !useSites[st[1]].Core {
+										return // quick tier: pairs with at least one core statement
+									}
+									emit(st)
+								})
 								if depth > 1 {
 									seqs(coreIdx, 3, func(st []int) {
 										if len(st) == 3 {
@@ -107,7 +112,7 @@ func C13(tier common.Tier) int {
 								blocks := []e1.UseBlock{{Encl: encl, File: file, Stmts: st}, {Encl: e1.UEStructField, File: 1}}
 								base := &e1.UseSpec{Pkg: pk, Mix: mix, Sites: useSites, Blocks: blocks}
 								bb, brest, bcrash, _ := e1.UseObserve(fam, base)
-								for _, sp := range []e1.Spell{e1.SpLocalAlias, e1.SpThirdAlias, e1.SpRenamedImp, e1.SpDotImport} {
+								for _, sp := range []e1.Spell{e1.SpLocalAlias, e1.SpThirdAlias, e1.SpRenamedImp, e1.SpDotImport, e1.SpBodyAlias} {
 									if pk.Path == e1.PathD && sp != e1.SpLocalAlias {
 										continue
 									}
@@ -189,7 +194,7 @@ func compareUseSpell(run *common.Run, fam string, v *e1.UseSpec, bb, vb map[stri
 	sort.Strings(keys)
 	for _, k := range keys {
 		b, w := strip(bb[k]), strip(vb[k])
-		if v.Spell != e1.SpLocalAlias || fileOf(k) != 0 {
+		if v.Spell != e1.SpBodyAlias && (v.Spell != e1.SpLocalAlias || fileOf(k) != 0) {
 			b, w = bb[k], vb[k]
 		}
 		if bb[k] != "" {
